@@ -94,7 +94,38 @@ def emit():
     L.append(f'Definition lfn_valid_denied_chars : list N := {coq_bytes(sorted(set(denied)))}.')
     L.append(f'Definition lfn_valid_anchored_end : bool := {coq_bool(m.group(2) == chr(92) + "Z")}.')
     L.extend(emit_fs())
+    L.extend(emit_path())
     return '\n'.join(L) + '\n'
+
+
+def emit_path():
+    """FatPath: '.' and '..' pass the constructor unvalidated (they are references while walking); every call that creates,
+    removes or moves an entry under the FINAL component must refuse them first (_must_be_named, ValueError)"""
+    t = parse('path.py')
+    fp = find_class(t, 'FatPath')
+    init = ast.unparse(find_func(fp.body, '__init__'))
+    skips = "elif part in ('.', '..'):\n        continue" in init.replace('    ' * 3, '    ') or "part in ('.', '..')" in init
+    ok = False
+    try:
+        g = find_func(fp.body, '_must_be_named')
+        body = [n for n in g.body if not (isinstance(n, ast.Expr) and isinstance(n.value, ast.Constant))]
+        ok = (len(body) == 1 and isinstance(body[0], ast.If) and ast.unparse(body[0].test) == "self.name in ('.', '..')"
+              and len(body[0].body) == 1 and isinstance(body[0].body[0], ast.Raise)
+              and ast.unparse(body[0].body[0].exc).startswith('ValueError(') and not body[0].orelse)
+    except TranslateError:
+        ok = False
+    def guarded_before(fname, marker):
+        # the call self._must_be_named() occurs, and textually before the first store into a directory index / cluster release
+        src = ast.unparse(find_func(fp.body, fname))
+        i = src.find('self._must_be_named()')
+        j = min([k for k in (src.find(m) for m in marker) if k >= 0] or [-1])
+        return i >= 0 and j >= 0 and i < j
+    sites = ok and guarded_before('open', ['parent._index[self.name] = entry']) \
+        and guarded_before('mkdir', ['parent.mkdir(', 'fs.fat.free()', 'parent._index[self.name] = entry']) \
+        and guarded_before('rmdir', ['del parent._index[self.name]']) \
+        and guarded_before('rename', ['target._index[target.name] = source_entry', 'target.touch()'])
+    return [f'Definition fatpath_skips_dot_validation : bool := {coq_bool(skips)}.',
+            f'Definition fatpath_mutators_refuse_dot_names : bool := {coq_bool(sites)}.']
 
 
 def emit_fs():
